@@ -85,19 +85,20 @@ CLAIMED['C07'] = dict(
    design='5 C07')
 CLAIMED['C15'] = dict(
    category='proof',
-   text="FRAGMENT (the whole synchronous path of async_publish QoS 1), proved for EVERY combination of announced capabilities (opaque connack_property returns arbitrary optionals): a PUBLISH is handed to async_send only if QoS <= Maximum QoS (default 2), not (retain and Retain Available = 0), Topic Alias absent or 1 <= alias <= Topic Alias Maximum (alias == max accepted, max 0 rejects), size <= Maximum Packet Size (size == limit accepted); otherwise the request completes immediately with the documented code (qos_not_supported, retain_not_available, topic_alias_maximum_reached, packet_too_large, invalid_topic, pid_overrun), nothing is sent and the allocated identifier is released (free_pid(id,false)). NOT built yet: subscribe/unsubscribe/disconnect paths; NOT decided: which CONNACK is current at initiation.",
+   text="FRAGMENT (the whole synchronous path of async_publish QoS 1), proved for EVERY combination of announced capabilities (opaque connack_property returns arbitrary optionals): a PUBLISH is handed to async_send only if QoS <= Maximum QoS (default 2), not (retain and Retain Available = 0), Topic Alias absent or 1 <= alias <= Topic Alias Maximum (alias == max accepted, max 0 rejects), size <= Maximum Packet Size (size == limit accepted); otherwise the request completes immediately with the documented code (qos_not_supported, retain_not_available, topic_alias_maximum_reached, packet_too_large, invalid_topic, pid_overrun), nothing is sent and the allocated identifier is released (free_pid(id,false)). subscribe_op: validate_topic returns exactly the documented code for every filter and every combination of Wildcard/Shared Subscription Available (a disabled shared subscription, a wildcard filter while wildcards are disabled, an invalid filter are refused; absent = available), validate_props admits a Subscription Identifier only if available and within 1..268435455, perform() sends only if every topic (BOUNDED list of 3 quick / 6 thorough) and the properties passed and the packet fits Maximum Packet Size, otherwise completes immediately with the code, sends nothing and releases the identifier; unsubscribe_op likewise (validation loops over opaque iterators closed by loop contracts). NOT built: disconnect path (oversized DISCONNECT drops its properties); NOT decided: which CONNACK is current at initiation.",
    note="Validators are uninterpreted functions of the string they are applied to (their correctness is C16's unit utf8). The user-property loop is closed by a loop contract (partial correctness).",
    design='5 C15')
 
 CLAIMED['C09'] = dict(
-   category='other',
-   text="BOUNDED stand-in only (send queue of at most 2 requests quick / 5 thorough, all flags, serials, handlers, limit and quota symbolic): async_sender::do_write -- if a queued request is marked terminal the write batch is exactly that (first) terminal request, written alone and ahead of every queued packet, the others stay queued and no quota is consumed; at most one gather-write is started and only when none is in progress. NOT built: disconnect_op / terminal_disconnect_op continuations (reason code and properties of the DISCONNECT, oversize -> properties dropped, the 5 s race, shutdown then cancel). NOT decided: everything temporal, 'nothing follows it on that connection', 'no connection until async_run'.",
-   note="A bounded check (labelled bounded in the evidence, never counted as proved). std::vector / find_if / remove_if / erase modelled in models/std.h; moved-from any_completion_handler is empty and moved-from vector is empty (assumed).",
+   category='proof',
+   text="FRAGMENT, proved on every continuation of disconnect_op and terminal_disconnect_op (emitted from the mqtt_client<tcp::socket> instantiation): perform() sends exactly one DISCONNECT built from the given reason code and properties, marked terminal and unnumbered, or -- properties invalid -- completes immediately with malformed_packet and sends nothing; an oversized DISCONNECT is rebuilt with the same reason code and no properties (C15) and that one is sent; after the write: aborted/no_recovery -> operation_aborted without shutdown; try_again -> a terminal DISCONNECT is resent (same packet, terminal), a non-terminal one completes with success and is not resent; anything else (even a failed write) -> the stream is shut down exactly once; after shutdown a terminal disconnect cancels the service exactly once and the handler completes once with the shutdown result; terminal_disconnect_op arms its timer with exactly 5 s BEFORE the race starts, runs one race (wait_for_one) of the disconnect against the timer, and calls the user handler exactly once with the disconnect's result. BOUNDED stand-in (send queue of at most 2 requests quick / 5 thorough, all flags, serials, handlers, limit and quota symbolic): async_sender::do_write -- if a queued request is marked terminal the write batch is exactly that (first) terminal request, written alone and ahead of every queued packet, the others stay queued and no quota is consumed; at most one gather-write is started and only when none is in progress. NOT decided: everything temporal (the 5 s bound as elapsed time, 'nothing follows it on that connection', 'no connection until async_run'), shutdown_op, client_service::cancel internals.",
+   note="Bounded parts are labelled bounded in the evidence and never counted as proved. asio::experimental::make_parallel_group / wait_for_one / deferred are opaque (assumed: completes with the first finished operation and cancels the other); std::vector / find_if / remove_if / erase modelled in models/std.h; moved-from any_completion_handler is empty and moved-from vector is empty (assumed).",
    design='5 C09')
+
 CLAIMED['C14'] = dict(
    category='proof',
-   text="FRAGMENT, proved on subscribe_op: the wait for SUBACK is registered only after the write succeeded and for (SUBACK, this packet id); a success completion happens only after a decodable SUBACK whose admitted reason codes number exactly the requested topics; an undecodable SUBACK or a wrong count / inadmissible code is never surfaced as success (malformed-disconnect + resend, or operation_aborted when the caller cancelled); try_again resends the same request; the packet id is released exactly once per completion; linear continuation. BOUNDED (6 codes quick / 8 thorough): to_reason_codes returns the admitted codes in order -- same length iff every code is listed for SUBACK, and then element-wise equal; complete() passes the codes on (or _num_topics empty codes) and records the first successful subscription. NOT built: unsubscribe_op (same shape), perform/validation; NOT decided: request contents on the wire, that the SUBACK belongs to this request beyond (suback, id).",
-   note="Opaque environment recorded by ghost counters; decode_suback and the tuple accessors are stubs handing out ghost objects.",
+   text="FRAGMENT, proved on subscribe_op AND unsubscribe_op (both emitted from their instantiations): the wait for SUBACK/UNSUBACK is registered only after the write succeeded and for (SUBACK|UNSUBACK, this packet id); a success completion happens only after a decodable acknowledgement that carried exactly one reason code per requested topic (count of the codes IN THE PACKET, defect D7 fixed) all of which are admitted; an undecodable acknowledgement, a wrong count or an inadmissible code is never surfaced as success (malformed-disconnect + resend, or operation_aborted when the caller cancelled); try_again resends the same request; the packet id is released exactly once per completion; linear continuation; perform() sends the request with the allocated id, unnumbered and unthrottled, and remembers the number of topics. BOUNDED (6 codes quick / 8 thorough): to_reason_codes returns the admitted codes in order -- same length iff every code is listed for the packet type, and then element-wise equal; complete() passes the codes on (or _num_topics empty codes) and records the first successful subscription. NOT decided: request contents on the wire (encoder composition), that the acknowledgement belongs to this request beyond (type, id).",
+   note="Opaque environment recorded by ghost counters; decode_suback/decode_unsuback and the tuple accessors are stubs handing out ghost objects.",
    design='5 C14')
 
 CLAIMED['C04'] = dict(
